@@ -71,6 +71,8 @@ var rpcClasses = []rpcClass{
 	{"remove-twice", "error", "Insert, Remove, Remove and Update of the same id"},
 	{"insert-oversized-metadata", "error", "Insert with a 300-byte metadata key (the snapshot format holds 255)"},
 	{"update-oversized-metadata", "error", "Update of a stored id with a 70000-byte metadata value; the item must stay"},
+	{"insert-oversized-multibyte-key", "error", "Insert with a metadata key of 200 two-byte characters: 400 bytes, the snapshot format's length field holds 255 (the limits are on bytes)"},
+	{"update-oversized-multibyte-value", "error", "Update of a stored id with a metadata value of 40000 two-byte characters (80000 bytes; the format holds 65535); the item must stay"},
 	{"batch-insert-client-level", "ok", "BatchInsert whose items carry client-chosen levels -7, 2^30 and -1 (a wire field): the items are stored at levels the server drew"},
 	{"partition-batch-insert-client-level", "ok", "PartitionBatchInsert (node-to-node RPC, open to any client) whose items carry levels -7 and 2^30"},
 	{"cosine-zero-vector", "ok", "a cosine dataset of 250 items: insert and search the zero vector (every distance is NaN), then an ordinary insert"},
@@ -79,7 +81,7 @@ var rpcClasses = []rpcClass{
 }
 
 func runRpc(c *Ctx) {
-	c.Stats.Rule = "one child process per request class (40 classes: malformed / truncated ids on every write RPC incl. the node-to-node PartitionBatch* RPCs, wrong and zero dimensions, zero partition / replica counts, unknown metric, k = 0 and k = 2^32-1, non-finite numbers, missing metadata, oversized batches, unknown ids) against a real single-node stack on disk, followed by a liveness probe and a restart that replays everything the requests left in the logs; every class is a distinct non-trivial case"
+	c.Stats.Rule = "one child process per request class (42 classes: malformed / truncated ids on every write RPC incl. the node-to-node PartitionBatch* RPCs, wrong and zero dimensions, zero partition / replica counts, unknown metric, k = 0 and k = 2^32-1, non-finite numbers, missing metadata, oversized batches, unknown ids) against a real single-node stack on disk, followed by a liveness probe and a restart that replays everything the requests left in the logs; every class is a distinct non-trivial case"
 	base := os.Getenv("VERIF_TMP")
 	if base == "" {
 		base = os.TempDir()
@@ -484,6 +486,18 @@ func childRpc(args []string) {
 			return report(err)
 		case "insert-oversized-metadata":
 			_, err := n.dmSrv.Insert(ctx, &pb.InsertRequest{DatasetId: dsId.Bytes(), Id: rid(79).Bytes(), Value: amath.Vector{3, 3}, Metadata: map[string]string{strings.Repeat("k", 300): "v"}})
+			return report(err)
+		case "insert-oversized-multibyte-key":
+			_, err := n.dmSrv.Insert(ctx, &pb.InsertRequest{DatasetId: dsId.Bytes(), Id: rid(80).Bytes(), Value: amath.Vector{3, 3}, Metadata: map[string]string{strings.Repeat("\u00e9", 200): "v"}})
+			return report(err)
+		case "update-oversized-multibyte-value":
+			_, err := n.dmSrv.Update(ctx, &pb.UpdateRequest{DatasetId: dsId.Bytes(), Id: rid(1).Bytes(), Value: amath.Vector{3, 3}, Metadata: map[string]string{"k": strings.Repeat("\u00e9", 40000)}})
+			if err == nil {
+				return "ok oversized update accepted"
+			}
+			if _, err2 := n.dmSrv.Update(ctx, &pb.UpdateRequest{DatasetId: dsId.Bytes(), Id: rid(1).Bytes(), Value: amath.Vector{4, 4}, Metadata: map[string]string{"k": "v"}}); err2 != nil {
+				return "ok the refused update removed the item: " + err2.Error()
+			}
 			return report(err)
 		case "update-oversized-metadata":
 			_, err := n.dmSrv.Update(ctx, &pb.UpdateRequest{DatasetId: dsId.Bytes(), Id: rid(1).Bytes(), Value: amath.Vector{3, 3}, Metadata: map[string]string{"k": strings.Repeat("v", 70000)}})
